@@ -1,4 +1,4 @@
-import AmaranthVerif.Proofs.EngineOrder
+import AmaranthVerif.Proofs.EngineEquivSafe
 
 /-!
 # Concrete simulations used as non-vacuity instances by `Properties/C08.lean`
@@ -68,5 +68,31 @@ def orderScripts : List (List TbOp) := [[.set (.sig 0) 7], [.get (.sig 1)]]
 def orderSim : Sim := mkSim orderD (circuitKinds orderD) orderScripts (identitySched 1 2) 20
 /-- the state in which the first pass over the testbenches starts -/
 def orderS0 : EState := orderSim.step (initState orderD (circuitKinds orderD) orderScripts)
+
+/-! ### a circuit replaced by a process -/
+
+/-- signals: `0` in (4 bits), `1` out (4 bits), `2` a free-running 1-bit clock signal; no compiled logic besides
+the replaced assignment `out := in ^ 3` -/
+def replCombD : Design :=
+  { ctx := [Shape.u 4, Shape.u 4, Shape.u 1], inits := [0, 0, 0], resetLess := [false, false, false],
+    doms := [], procs := [] }
+def replCombE : Expr := .op2 .xor (.sig 0) (.const 3 (Shape.u 4))
+/-- a clock process before the replaced one: the replaced owner has index 1 -/
+def replCombPre : List ProcKind := [.clock 2 2 4]
+def replCombScripts : List (List TbOp) :=
+  [[.get (.sig 1), .set (.sig 0) 7, .get (.sig 1), .wait [.delay 3, .sample (.sig 2)], .setFrom (.sig 0) (.sig 1),
+    .get (.sig 1)]]
+
+/-- signals: `0` clk, `1` rst (synchronous), `2` count (init 5), `3` out; the replaced register is
+`count := count + 1`; after it a compiled `out := count ^ 3` and the clock -/
+def replSyncD : Design :=
+  { ctx := [Shape.u 1, Shape.u 1, Shape.u 4, Shape.u 4], inits := [0, 0, 5, 0],
+    resetLess := [false, false, false, false], doms := [{ clk := 0, rst := some 1 }], procs := [] }
+def replSyncE : Expr := .op2 .add (.sig 2) (.const 1 (Shape.u 1))
+def replSyncPost : List ProcKind :=
+  [.comb (.assign (.sig 3) (.op2 .xor (.sig 2) (.const 3 (Shape.u 4)))), .clock 0 2 4]
+def replSyncScripts : List (List TbOp) :=
+  [[.tick 0 [.sig 2, .sig 3], .get (.sig 2), .set (.sig 1) 1, .tick 0 [.sig 2], .get (.sig 2), .set (.sig 1) 0,
+    .tick 0 [], .get (.sig 3)]]
 
 end Amaranth.Engine.Ex
